@@ -33,10 +33,12 @@ TOL = 1e-11  # relative to the majorant scale (sum of |terms| of the exact recur
 TOL_RESIDUAL = 1e-8  # Gauss-Newton route (iterative; run with tol=1e-14): clean tree <= ~1e-12
 
 EXPLANATION = (
-    "padded-scan / unroll / (repaired) recursive-JVP models are proved equal to taylorCoeffs, the derivatives of the "
-    "formal power-series solution; the doubling routine is an executable model checked by correspondence only "
-    "(witness theorems for D4); jetexpand_residual is compared with taylorCoeffs on ODE residuals (constraints "
-    "determine the coefficients), run with a tightened Gauss-Newton tolerance."
+    "padded-scan / unroll / (repaired) recursive-JVP / (repaired) Newton-doubling models are proved equal to "
+    "taylorCoeffs, the derivatives of the formal power-series solution (taylorCoeffs_exact); the current recursive-JVP "
+    "and doubling routines are proved to return the coefficients of the frozen-time ODE (jvp_variant_spec, "
+    "doubling_spec: defect D4); jetexpand_residual is compared with taylorCoeffs on lifted ODE residuals "
+    "(C11.residual_route_determines: the constraints determine the coefficients), run with a tightened "
+    "Gauss-Newton tolerance (its iteration itself is property C19)."
 )
 
 WITNESS = add(mul(T, V(0, 0)), mul(T, T))  # f = t*u + t^2
@@ -361,12 +363,12 @@ def one_case(ctx, modes, K, d, es, inits, t, kind, num, time_dep, tag="gen"):
         truth = model(ctx, "jet_scan", K, d, n_out - 1, t, inits, es)
         dscale = majorant_scale(ctx, K, d, n_out, t, inits, es)
         if op == "jet_doubling_aug" and not np.array_equal(ref, truth):
-            # no theorem for the doubling model yet: decide by exact comparison of the two models
+            # C10.doublingAug_exact
             raise core.HarnessError(f"driver: doublingAug != taylorCoeffs on {desc}")
         if op == "jet_doubling":
             frozen = model(ctx, "jet_jvp_frozen", K, d, n_out - 1, t, inits, es)
             if not np.array_equal(ref, frozen):
-                raise core.HarnessError(f"driver: doubling != frozen-time taylorCoeffs on {desc}")
+                raise core.HarnessError(f"driver: doubling != frozen-time taylorCoeffs on {desc}")  # C10.doubling_spec
             if time_dep and not np.array_equal(ref, truth):
                 ctx.count("doubling:frozen-time value differs from the solution derivatives (D4)")
         ctx.count(f"doubling:num_doublings={nd}")
